@@ -220,6 +220,32 @@ def copy_is_independent(kind, u):
     return to_d(a) == before and to_d(b) != before
 
 
+def dict_after_edit(kind, u):
+    """serialisation follows the CURRENT content: an object that was already serialised (and read back) once and is then edited
+    serialises like a freshly built object given the same edit; the dictionary read back describes the edited object"""
+    mk = [lambda: mk_species(u, 3, 3, 2), lambda: mk_reaction(u, 1, 1, 1), lambda: mk_network(u, 1), lambda: mk_grid(u, 2, 1, 2, 0, 1, 0), lambda: mk_graph(u, 1, 1),
+          lambda: mk_system(u, 0, 1), lambda: mk_script(u, 1, 1, 2, 3)][kind]
+    to_d = [species_to_dict, reaction_to_dict, rdnetwork_to_dict, rdgridspace_to_dict, rdgraphspace_to_dict, rdsystem_to_dict, rdscript_to_dict][kind]
+    from_d = [species_from_dict, reaction_from_dict, rdnetwork_from_dict, rdgridspace_from_dict, rdgraphspace_from_dict, rdsystem_from_dict, rdscript_from_dict][kind]
+    same = [same_species, same_reaction, same_network, same_space, same_space, same_system, same_script][kind]
+    edit = [lambda b: (setattr(b, "density", 9.0), setattr(b, "chstt", True), b.D.__setitem__("e1", UnitValue(5.0, b.D["e1"].units)) if isinstance(b.D, dict) else setattr(b, "D", 5.0)),
+            lambda b: (setattr(b, "kr", 7.0), b.kf.__setitem__("e0", UnitValue(5.0, b.kf["e0"].units)) if isinstance(b.kf, dict) else setattr(b, "kf", 5.0)),
+            lambda b: (setattr(b.species[0], "density", 9.0), setattr(b.reactions[0], "kr", 7.0)),
+            lambda b: (setattr(b, "cell_vol", 27.0), b.set_boundary_conditions({"x": "periodical", "y": "reflecting", "z": "periodical"}), setattr(b, "cell_env", [1 - int(e) for e in b.get_cell_env_array()])),
+            lambda b: (setattr(b.nodes[0], "volume", 5.0), setattr(b.edges[0], "surface", 9.0), setattr(b.edges[0], "distance", 4.0)),
+            lambda b: (b.set_state(0, 0, 99.0), b.set_chemostat(1, 0, 1 - int(b.get_chemostat(1, 0)))),
+            lambda b: (setattr(b, "time_step", 0.5), setattr(b, "rng_seed", 4242), b.system.set_state(0, 0, 99.0))][kind]
+    a = mk()
+    d0 = to_d(a)
+    from_d(via_json(d0))
+    a.copy()
+    edit(a)
+    fresh = mk()
+    edit(fresh)
+    d1 = to_d(a)
+    return d1 == to_d(fresh) and d1 != d0 and same(from_d(via_json(d1)), fresh)
+
+
 def units_argument_not_aliased(kind):
     """the units system handed to a constructor (or a setter) is copied: editing the caller's object afterwards changes nothing in the model"""
     us_ = UnitsSystem("mm", "min", "mmol")
